@@ -20,6 +20,8 @@ pub struct GenCfg {
     pub min_variants: usize,
     pub min_fields: usize,
     pub min_type_params: usize,
+    /// percent chance of a const parameter (when `consts` is on)
+    pub const_pct: u32,
     /// only field types and expressions that mention no std item by its prelude name (C19 shadowing)
     pub plain_types_only: bool,
     pub generics: bool,
@@ -72,6 +74,7 @@ impl GenCfg {
             min_variants: 0,
             min_fields: 0,
             min_type_params: 0,
+            const_pct: 15,
             plain_types_only: false,
             generics: true,
             lifetimes: true,
@@ -241,7 +244,7 @@ pub fn build(d: &mut Dna, cfg: &GenCfg) -> Built {
                 gens.lifetimes.push((lt_names.remove(i), vec![]));
             }
         }
-        if cfg.consts && d.chance(15) {
+        if cfg.consts && d.chance(cfg.const_pct) {
             let free: Vec<String> = const_names.iter().filter(|n| !gens.types.iter().any(|t| &t.name == *n)).cloned().collect();
             let name = if free.is_empty() { "N".to_string() } else { d.choose(&free).clone() };
             gens.consts.push(ConstParam { name, ty: "usize".into(), default: None, inst: "2".into() });
@@ -1128,6 +1131,56 @@ pub fn build(d: &mut Dna, cfg: &GenCfg) -> Built {
         }
     }
 
+    // `[u8; N]: Default` holds only through the automatic where-clause, so an explicit mode on Default would leave the
+    // user-written part ill-typed
+    if has(Tr::Default) && variants.iter().any(|v| v.fields.iter().any(|f| gens.consts.iter().any(|c| f.ty.params.contains(&c.name)))) {
+        for a in tattrs.iter_mut() {
+            if a.tr == Tr::Default {
+                a.params.retain(|(p, _)| !matches!(p, TParam::Bound(_)));
+            }
+        }
+    }
+    // const parameters may be declared before the type parameters
+    if !gens.consts.is_empty() && !gens.types.is_empty() && d.chance(40) {
+        gens.consts_first = true;
+        if gens.types.iter().any(|t| t.default.is_none()) {
+            for c in gens.consts.iter_mut() {
+                c.default = None;
+            }
+        }
+        classes.push("const_params_before_type_params");
+    }
+    // attribute order on fields and variants is free; custom method paths may be written in several ways
+    for v in variants.iter_mut() {
+        if v.attrs.len() > 1 && d.chance(30) {
+            v.attrs.reverse();
+        }
+        for f in v.fields.iter_mut() {
+            if f.attrs.len() > 1 && d.chance(35) {
+                let k = d.pick(f.attrs.len());
+                f.attrs.rotate_left(k);
+                if d.chance(50) {
+                    f.attrs.reverse();
+                }
+            }
+            let concrete = f.ty.params.is_empty() && !f.ty.src.contains('\'');
+            for a in f.attrs.iter_mut() {
+                for (p, _) in a.params.iter_mut() {
+                    if let FParam::Method(m) = p {
+                        if m.is_empty() || !m.starts_with("m_") {
+                            continue;
+                        }
+                        let single_param = !m.starts_with("m_hash") && !matches!(m.as_str(), "m_clone_u8" | "m_clone_i16" | "m_clone_string" | "m_clone_tracked");
+                        match d.weighted(&[70, 15, 15]) {
+                            1 => *m = format!("crate::prelude::{m}"),
+                            2 if concrete && single_param && !cfg.plain_types_only => *m = format!("{m}::<{}>", f.ty.src),
+                            _ => {},
+                        }
+                    }
+                }
+            }
+        }
+    }
     let mut spec = TypeSpec { kind, name: type_name, gens, repr, traits: tattrs, split: d.byte(), variants, raw: vec![], extra_items: vec![] };
 
     // type-level Default expression: a full constructor of the default variant, all fields value 1
